@@ -174,6 +174,28 @@ def cmp_find_head(scfg, result, exc):
     return False
 
 
+def ref_fallback_entries(scfg):
+    """entries of a sub-graph nothing of its own level jumps into: walk outwards
+    through the enclosing regions (by the links the library itself keeps) to the
+    first level where some other block jumps to the region.  None when the
+    links cannot be followed."""
+    sc = scfg
+    for _ in range(200):
+        r = getattr(sc, "region", None)
+        if r is None or r.kind == "meta":
+            return []
+        pr = r.parent_region
+        if pr is None or pr.subregion is None:
+            return None
+        P = pr.subregion
+        ents = sorted(k for k, b in P.graph.items()
+                      if k != r.name and r.name in b._jump_targets)
+        if ents:
+            return ents
+        sc = P
+    return None
+
+
 def cmp_headers_entries(scfg, subset, result, exc):
     v = view(scfg)
     subset = set(subset)
@@ -197,7 +219,15 @@ def cmp_headers_entries(scfg, subset, result, exc):
         raise Viol("C13", "headers_fallback_not_graph_head",
                    {"graph": {k: v[k][1] for k in v}, "subset": sorted(subset),
                     "got": list(gh), "want": heads})
-    return "fallback"
+    # ... and the entries are the blocks that jump to the enclosing region at
+    # the first enclosing level where any block does (a region that is the
+    # head of its own level is entered from further out)
+    want = ref_fallback_entries(scfg)
+    if want is not None and sorted(ge) != want:
+        raise Viol("C13", "headers_fallback_entries_mismatch",
+                   {"graph": {k: v[k][1] for k in v}, "subset": sorted(subset),
+                    "got": list(ge), "want": want, "region": scfg.region.name})
+    return "fallback" if not want else "fallback_with_outer_entries"
 
 
 def cmp_exiting_exits(scfg, subset, result):
